@@ -381,13 +381,15 @@ impl CompilerSession {
     ) -> zydeco_statics::query::TyckOutput {
         static NEXT_TICKET: std::sync::atomic::AtomicU64 = std::sync::atomic::AtomicU64::new(0);
 
-        *self.pending.lock().expect("pending check slot poisoned") =
-            Some(Arc::new(zydeco_statics::query::PendingParts { spans, prim, scoped, root }));
-        // A fresh ticket per call: a keyless query would answer every later
-        // call with the first program it interned.
+        // A fresh ticket per call carries the program itself: a keyless query
+        // would answer every later call with the first program it interned, and
+        // a slot shared by all snapshots lets concurrent calls swap programs.
         let ticket = zydeco_statics::query::PendingTicket::new(
             self,
-            NEXT_TICKET.fetch_add(1, std::sync::atomic::Ordering::Relaxed),
+            zydeco_statics::query::TicketedParts::new(
+                NEXT_TICKET.fetch_add(1, std::sync::atomic::Ordering::Relaxed),
+                zydeco_statics::query::PendingParts { spans, prim, scoped, root },
+            ),
         );
         let data = zydeco_statics::query::intern_pending_for(self, ticket);
         zydeco_statics::query::check_source(self, data)
